@@ -209,7 +209,8 @@ class C20:
     RULE = ("one run = one generated valid document of one format (JSON, JSON5, YAML, XML, HTML, plist) with: a torn "
             "write at EVERY byte offset; lost tail at 16/64/512-byte blocks and at the last newline; zero-filled tail; "
             "flipped bits; 16-byte garbage blocks; swapped adjacent bytes; duplicated blocks; every delimiter dropped / duplicated (capped at 48 positions, sampled beyond); inserted "
-            "unbalanced bracket or tag character; dropped / duplicated closing tag; compositions of two faults. Each "
+            "unbalanced bracket or tag character; dropped / duplicated closing tag; compositions of two faults; every 12th run per format (not JSON5) uses a 70-300 KB document instead, with faults sampled "
+            "at the tail, at 64 KiB boundaries and at random offsets. Each "
             "fault carries its own configuration: file position (first/second), type spelling (extension / "
             "--from-<type> / --from-mime), status flags (default / --no-status / --quiet); the clock profile is per "
             "run. evaluations = corrupted files handed to main(). non-trivial = kept cases: every independent parser "
@@ -231,13 +232,15 @@ class C20:
                                 "wall clock (tqdm.std.time)", "terminal geometry"],
                   "stubbed": ["tqdm monitor thread (disabled)"]}
     PROBES = ["bar_rendered_before_error", "first_position", "second_position", "spelling_flag", "spelling_mime",
-              "status_quiet", "multibyte_char_torn", "fresh_process_validated"]
+              "status_quiet", "multibyte_char_torn", "fresh_process_validated", "large_document"]
 
     # ------------------------------------------------------------------ generation
     def gen_case(self, seed, tier, index):
         st = Streams(seed)
         w, fs, env = st["workload"], st["faults"], st["env"]
         fmt = FORMATS[index % len(FORMATS)]
+        if (index // len(FORMATS)) % 12 == 11 and fmt != "json5":   # (the pure-Python json5 parser needs ~10 s per 100 KB)
+            return self._gen_large_case(st, fmt)
         text, other = self._gen_doc(w, fmt), self._gen_doc(w, fmt)
         data = text.encode("utf-8")
 
@@ -282,6 +285,65 @@ class C20:
         fresh = sorted(env.sample(range(len(faults)), 3)) if env.random() < (0.25 if tier == "quick" else 0.1) else []
         return {"fmt": fmt, "text": text, "other": other, "faults": faults,
                 "clock": env.choice(["frozen", "1ms", "0.2s", "3s", "3s", "1h"]), "fresh": fresh}
+
+    def _gen_large_case(self, st, fmt):
+        """A document of 70-300 KB (beyond any plausible chunk / buffer size) with faults sampled near the end, at
+        block boundaries and at random offsets - enumeration of every offset is not affordable at this size."""
+        w, fs, env = st["workload"], st["faults"], st["env"]
+        n = {"xml": [2200, 4000], "html": [2200, 4000], "json": [1000, 2000], "yaml": [1600, 1700],
+             "plist": [700, 1400]}[fmt][w.randrange(2)]
+        if fmt in ("xml", "html"):
+            tag = "div" if fmt == "html" else "item"
+            body = "".join(f'<{tag} id="{i}">text {i} é</{tag}>\n' for i in range(n))
+            root = "html" if fmt == "html" else "root"
+            text = f"<{root}>\n{body}</{root}>\n"
+        elif fmt in ("json", "json5"):
+            text = json.dumps([{"id": i, "name": f"item {i} é", "tags": ["a", "b"]} for i in range(n)], ensure_ascii=False,
+                              indent=1)
+        elif fmt == "yaml":
+            text = "".join(f"- id: {i}\n  name: item {i} é\n  tags: [a, b]\n" for i in range(n))
+        else:
+            text = plistlib.dumps([{"id": i, "name": f"item {i} é"} for i in range(n)], fmt=plistlib.FMT_XML).decode()
+        data = text.encode("utf-8")
+        ln = len(data)
+
+        def cfg():
+            return {"pos": fs.choice([1, 2]), "spell": fs.choice(["ext", "ext", "flag", "mime"]),
+                    "status": fs.choice(["default", "no-status", "quiet"])}
+        faults = []
+        offs = set()
+        for k in range(1, 40):
+            offs.add(ln - k)                                   # the tail: missing final closers / tags
+        for b in range(65536, ln, 65536):
+            offs.update([b - 1, b, b + 1, b + 17])             # buffer / chunk boundaries
+        for _ in range(16):
+            offs.add(fs.randrange(1, ln))
+        for at in sorted(o for o in offs if 0 < o < ln):
+            faults.append(dict(kind="torn", at=at, **cfg()))
+        for blk in (0, 512, 4096, 65536):
+            faults.append(dict(kind="lost_tail", block=blk, **cfg()))
+        for _ in range(3):
+            faults.append(dict(kind="zero_fill", at=ln - fs.randrange(1, 2000), **cfg()))
+        for _ in range(4):
+            faults.append(dict(kind="garbage_block", at=fs.randrange(ln), **cfg()))
+        for _ in range(6):
+            faults.append(dict(kind="bitflip", at=fs.randrange(ln), bit=fs.randrange(8), **cfg()))
+        if fmt in ("xml", "html", "plist"):
+            tags = _closing_tags(data)
+            for (i, j) in tags[-3:] + [tags[len(tags) // 2]]:
+                faults.append(dict(kind="drop_tag", at=i, end=j, **cfg()))
+                faults.append(dict(kind="dup_tag", at=i, end=j, **cfg()))
+        else:
+            dpos = [i for i in range(max(0, ln - 60), ln) if data[i] in DELIMS[fmt]]
+            for i in dpos[-6:]:
+                faults.append(dict(kind="drop", at=i, **cfg()))
+                faults.append(dict(kind="dup", at=i, **cfg()))
+        small = {"xml": "<root />", "html": "<html />", "json": "[1]", "yaml": "- 1\n",
+                 "plist": plistlib.dumps([1], fmt=plistlib.FMT_XML).decode()}[fmt]
+        if fmt == "yaml":     # the pure-Python reference loader needs ~0.5 s per 70 KB: a third of the faults
+            faults = [f for i, f in enumerate(faults) if i % 3 == 0]
+        return {"fmt": fmt, "text": text, "other": small, "faults": faults, "large": True,
+                "clock": env.choice(["frozen", "3s"]), "fresh": sorted(env.sample(range(len(faults)), min(2, len(faults))))}
 
     def _gen_doc(self, w, fmt):
         if fmt == "json":
@@ -359,11 +421,15 @@ class C20:
             ok_ext = os.path.join(d, "ok" + EXT[fmt])
             with open(ok_ext, "wb") as fh:
                 fh.write(case["other"].encode("utf-8"))
+            if case.get("large"):
+                bump("probe.large_document")
             # baseline: both files valid -> the command must work at all, else this document is outside C20
             base_from = os.path.join(d, "orig" + EXT[fmt])
             with open(base_from, "wb") as fh:
                 fh.write(data)
-            rc, exc, out, err = self._invoke(["graphtage", "--no-status", base_from, ok_ext])
+            # (a large document is compared with itself: equal trees, no expensive diff)
+            rc, exc, out, err = self._invoke(["graphtage", "--no-status", base_from,
+                                              base_from if case.get("large") else ok_ext])
             if exc is not None or rc not in (0, 1) or REJECTS[fmt](data):
                 return result(ood=True, digest="ood", counters={"ood.baseline_failed": 1})
             for fi, f in enumerate(case["faults"]):
